@@ -505,8 +505,11 @@ func (g *scopegen) stmt(s *sgScope) {
 	case 26:
 		if g.o.Sloppy && !g.o.NoEval {
 			g.k++
-			n := g.name()
-			g.line("try { $(%d, eval(\"%s\"), eval(\"typeof %s\")); } catch { $(%d, \"!\"); }", g.k, n, g.name(), g.k)
+			// the names handed to eval are also referenced as plain identifiers in the same statement: a name that is free
+			// here is then a free name esbuild can see (and must keep clear of); a name that only ever occurs inside
+			// an eval string is invisible to any compiler and outside what the property states
+			n, m := g.name(), g.name()
+			g.line("try { $(%d, eval(\"%s\"), eval(\"typeof %s\"), typeof %s, typeof %s); } catch { $(%d, \"!\"); }", g.k, n, m, n, m, g.k)
 		} else {
 			g.probe()
 		}
